@@ -66,8 +66,9 @@ PROOFS = [
     Proof('stepv/step', 'stepv.c', 'h_stepv', kind='L', min_obligations=4, backend='cadical'),
     Proof('epoll/rm_interest', 'sock.c', 'h_rm_interest', kind='L', min_obligations=4),
 ]
-NATIVES = []
-AUX_VIOLATION = True    # no native oracle: a failing loop-rule obligation is reported (no-failing-input-found), see DESIGN §4
+NATIVES = [Native('native', 'native.cpp', args_quick=[60], args_thorough=[3000], timeout=3000, link_photon=True, cxxflags=['-fpermissive'], ldflags=['-lssl', '-lcrypto', '-lcurl', '-laio', '-lz'])]
+REPLAY = 'native'
+AUX_VIOLATION = True    # the native oracle (real sockets, one vCPU) does not reach every inductive obligation: a failing loop-rule obligation is reported (no-failing-input-found), see DESIGN §4
 TRUSTED = ['cbmc 6.11.0', 'lowering rules of specs/C10/spec.py']
 NOT_DECIDED = ['exactly-once ordered bytes end to end (kernel sockets)', 'engine / scheduler interplay: a readiness event or timeout of one waiter never wakes or starves another',
                'the data-array wait_for_events overload, do_epoll_wait retry loop, epoll-ng / io_uring engines', 'timing of timeouts']
